@@ -427,7 +427,7 @@ func (in *Interp) block(fr *frame, b *ssa.BasicBlock) (next *ssa.BasicBlock, ret
 				if bt, ok := i.Type().Underlying().(*types.Basic); ok {
 					if st, ok := i.X.Type().Underlying().(*types.Basic); ok && st.Info()&types.IsInteger != 0 {
 						max := map[types.BasicKind]int64{types.Uint8: 0xff, types.Uint16: 0xffff}[bt.Kind()]
-						if max != 0 && sizeOf(st.Kind()) > sizeOf(bt.Kind()) && !in.Assume[fmt.Sprintf("(%s<=%d)", iv, max)] && !(in.NarrowOK != nil && in.NarrowOK(in, iv.String(), max)) {
+						if max != 0 && sizeOf(st.Kind()) > sizeOf(bt.Kind()) && !in.Assume[fmt.Sprintf("(%s<=%d)", iv, max)] && !knownFalse(in.Assume, fmt.Sprintf("(%d<%s)", max, iv)) && !knownFalse(in.Assume, fmt.Sprintf("%d<%s", max, iv)) && !(in.NarrowOK != nil && in.NarrowOK(in, iv.String(), max)) {
 							x = IntV{Sym: fmt.Sprintf("%s(%s)", bt.Name(), iv)}
 						}
 					}
@@ -1001,4 +1001,10 @@ func quietDefer(d *ssa.Defer) bool {
 		}
 	}
 	return true
+}
+
+// knownFalse: the open condition k was decided false on this path (the negated form of a bound: !(max < x)).
+func knownFalse(assume map[string]bool, k string) bool {
+	v, ok := assume[k]
+	return ok && !v
 }
